@@ -19,6 +19,12 @@ Theorem C03_canonical : forall table pk ks rows1 rows2,
   lock_key_text table pk rows1 = lock_key_text table pk rows2.
 Proof. exact lock_key_text_same. Qed.
 
+(* ... over ALL builders: the writers' text (insert / update / delete / upsert images) equals the text the locking
+   read's own builder sends for the same keys *)
+Theorem C03_canonical_sfu : forall table pk ks rows,
+  Forall2 (has_key_for pk) ks rows -> lock_key_text table pk rows = sfu_key_text table pk ks.
+Proof. exact lock_key_text_sfu. Qed.
+
 (* what the shipped builder did before the repair (cells in image order): the same key gave different texts *)
 Theorem C03_canonical_refuted_legacy :
   (exists pk k r1 r2, NoDup pk /\ List.length k = List.length pk /\ NoDup r1 /\ NoDup r2 /\ same_key_cells pk k r1 /\ same_key_cells pk k r2
